@@ -16,6 +16,7 @@
 
 import logging
 import os
+import pickle
 import re
 from pathlib import Path
 from typing import BinaryIO, Iterator, Optional
@@ -160,6 +161,10 @@ def extract_reuse_info(text: str) -> ReuseInfo:
     for expression in spdx_tags.pop("spdx_expressions"):
         try:
             parsed = _LICENSING.parse(expression)
+            # An expression nested hundreds of levels deep exhausts the stack
+            # as soon as it is hashed, rendered or sent to another process.
+            # Find out here, where it is a parse error.
+            pickle.dumps((parsed, str(parsed), hash(parsed)))
         except (ExpressionError, ParseError):
             _LOGGER.error(
                 _("Could not parse '{expression}'").format(
